@@ -107,11 +107,12 @@ ServerStreamFor(c, s) ==
   IN IF srole[c][pos] = 2 THEN "out" ELSE "err"
 
 \* ---- Dispense ----------------------------------------------------------------------------------
-\* (on a client that has been closed the call fails at once)
+\* (on a client that has been closed the call fails at once; while its Close is still waiting for the Quit reply
+\* the control stream is open and the request goes out like any other)
 CallDispense(k, c, n) ==
   /\ call[k].st = "idle" /\ cph[c] \in {4, 5} /\ n \in Names
   /\ call' = [call EXCEPT ![k] = [NoCall EXCEPT !.conn = c, !.name = n,
-                                   !.st = IF Kind[n] = "cunknown" \/ cph[c] = 5 THEN "err" ELSE "sent"]]
+                                   !.st = IF Kind[n] = "cunknown" \/ (cph[c] = 5 /\ c \notin draining) THEN "err" ELSE "sent"]]
   /\ UNCHANGED <<sessVars, nextid, used, impl, acc, apps, stdioVars, quitVars>>
 
 \* name lookup and Plugin.Server(broker) in the handler of Dispenser.Dispense
